@@ -526,6 +526,18 @@ func lastSeenWithEveryFragment(c *core.Ctx, r *core.Rule) {
 				ok = true
 			}
 		}
+		if !ok {
+			// or every path from the counter update to a return still refreshes the time
+			esc := core.ForwardSearch(fn, cs, func(i ssa.Instruction) bool { _, isRet := i.(*ssa.Return); return isRet }, func(i ssa.Instruction) bool {
+				for _, ls := range last {
+					if i == ssa.Instruction(ls) {
+						return true
+					}
+				}
+				return false
+			})
+			ok = esc == nil && len(last) > 0
+		}
 		r.Check(ok, fmt.Sprintf("%s/last-seen-with-current#%d", core.FnKey(fn), i+1), p.InstrPos(cs), "LastSeen is stored on every path that counts a fragment", "a fragment is counted (Current is updated) on a path on which LastSeen is not refreshed: fragments that only fill gaps do not count as activity, so DiscardOlderThan forgets a datagram that received a fragment after the cut-off, and its last fragment then yields nothing")
 	}
 }
